@@ -546,7 +546,7 @@ def _block_strategy(with_xs=False):
         "reorder": st.one_of(st.just([]), st.lists(st.integers(0, 7), min_size=1, max_size=3)),
     }
     if with_xs:
-        d["xs"] = st.sampled_from(["A", "A", "B", "Z", "a", "c", "z"])
+        d["xs"] = st.sampled_from(["A", "A", "A", "B", "B", "Z", "a", "a", "c", "z"])
         d["xs2"] = st.sampled_from(["AA", "ZZ", "Ad", "BC", "zz", "aB"])
         d["env"] = st.sampled_from(["A", "A", "B", "D", "Z", "b"])
         d["fuelT"] = st.one_of(st.none(), st.sampled_from([300.0, 400.0, 500.0, 790.0, 790.0]), st.floats(150.0, 750.0).map(lambda x: round(x, 1)))
@@ -891,25 +891,7 @@ def collections_execute(case):
         return out
 
     if kind == "Cylinder":
-        import numpy as np
-
-        check_template(out, cand, rep, "cyl")
-        rc = {c.getName(): c for c in rep}
-        for cname in [c["name"] for c in cand[0]["comps"]]:
-            areas = np.array([[x for x in m["comps"] if x["name"] == cname][0]["area"] for m in cand])
-            wt = ex.w * areas
-            tab = ex.comp_table(cname)
-            present = [i for i in range(len(nuclides)) if any(nuclides[i] in [x for x in m["comps"] if x["name"] == cname][0]["nd"] for m in cand)]
-            if wt.sum() <= 0.0:
-                continue
-            want = (wt / wt.sum()).dot(tab)
-            got = np.array([rc[cname].p.numberDensities.get(n, 0.0) for n in nuclides])
-            bad = [i for i in present if not _close(got[i], want[i])]
-            out.check(not bad, "cyl/component-density-not-weighted-mean",
-                      lambda: "component %s nuclide %s: got %r, block-weight x area mean %r" % (cname, nuclides[bad[0]], got[bad[0]], want[bad[0]]))
-            lo, hi = tab.min(axis=0), tab.max(axis=0)
-            rng = [i for i in present if not (lo[i] * (1 - 1e-9) <= got[i] <= hi[i] * (1 + 1e-9))]
-            out.check(not rng, "cyl/component-density-outside-member-range", lambda: "component %s nuclide %s" % (cname, nuclides[rng[0]]))
+        check_cylinder(out, ex, cand, rep)
         check_nuc_temps(out, ex, coll.avgNucTemperatures, "cyl")
         check_burnup(out, ex_all, mask, rep, "cyl")
         return out
@@ -994,10 +976,104 @@ def _avoid_known_grouping(case):
     # ineligible members (by the filter of their xs type) get massHmBOL = 0 in execute while the defect is excluded
     case["zeroHmIneligible"] = bool(EXCLUDE_KNOWN.get(SIG_BURNUP))
     case["excluded"] = excluded
+    if any(c["geometry"] == "1D cylinder" for c in case["control"]):
+        # the 1-D cylinder collection refuses members whose matching components differ in the key nuclides they list
+        # (documented ValueError): keep such cores free of the added nuclides so that its averaging is reached
+        case["blocks"] = [dict(b, adds=[]) for b in case["blocks"]]
     if case["profile"] == "many":  # 8 x 6 = 48 environment groups: reaches the lower-case letters
         case["buGroups"] = [2, 5, 10, 15, 20, 30, 50]
         case["tempGroups"] = [200, 300, 400, 500, 600]
+    if case.get("scenario") == "late-eligible" and len(case["blocks"]) >= 3:
+        _shape_late_eligible(case)
+    if case.get("scenario") == "default-filter" and len(case["blocks"]) >= 2:
+        _shape_default_filter(case)
     return case
+
+
+def _shape_default_filter(case):
+    """Shape built on purpose: an explicit entry of the drawn geometry WITHOUT validBlockTypes covers a group that holds a
+    fuel block and a non-fuel block, so the geometry's default filter decides who is averaged."""
+    bl = [dict(b) for b in case["blocks"]]
+    for k in (0, 1):
+        bl[k]["like"] = None
+        bl[k]["xs"] = bl[0]["xs"]
+        bl[k]["env"] = bl[0]["env"]
+        bl[k]["bu"] = bl[0]["bu"]
+        bl[k]["fuelT"] = None
+    if bl[0]["design"] not in (0, 1):
+        bl[0]["design"] = 0
+    if bl[1]["design"] in (0, 1):
+        bl[1]["design"] = 2
+    g = case["scenarioGeometry"]
+    if g == "1D cylinder":
+        bl = [dict(b, adds=[]) for b in bl]
+    entry = {"type": bl[0]["xs"], "env": "A", "geometry": g, "rep": case["rep"], "filter": 0, "byComponent": False, "tempIsotope": "U238"}
+    case.update(blocks=bl, tempGroups=[], allTypes=False, onBoundary=False, xsPool=[],
+                control=[entry] + [c for c in case["control"] if c["type"] != bl[0]["xs"]])
+
+
+def _shape_late_eligible(case):
+    """History shape built on purpose (everything not named here stays as drawn): two fuel blocks in the lowest burnup
+    group and a non-fuel block of the same xs type alone in the next group (unrepresented at call 1); before call 2 one
+    fuel block burns into that group, which is then represented and must keep its members."""
+    bg = list(case["buGroups"])
+    if not bg or bg[0] >= 99:
+        bg = [10, 20, 30]
+    hi = float(bg[0] + 1) if len(bg) == 1 else (bg[0] + bg[1]) / 2.0
+    bl = [dict(b) for b in case["blocks"]]
+    for k in (0, 1, 2):
+        bl[k]["like"] = None
+        bl[k]["xs"] = bl[0]["xs"]
+        bl[k]["fuelT"] = None
+    for k in (0, 1):
+        if bl[k]["design"] not in (0, 1):
+            bl[k]["design"] = k
+    if bl[2]["design"] in (0, 1):
+        bl[2]["design"] = 2
+    bl[0]["bu"] = round(bg[0] * 0.5, 3)
+    bl[1]["bu"] = float(bg[0])  # on the (inclusive) upper bound of the lowest group
+    bl[2]["bu"] = hi
+    step = {"bu": [[0, 0.0]] * 12, "fuelT": [None] * 12, "type": [None] * 12}
+    steps = [dict(s_) for s_ in case["steps"]] or [step]
+    first = dict(steps[0])
+    first["bu"] = [[0, 0.0], [2, hi], [0, 0.0]] + [list(x) for x in first["bu"][3:]]
+    first["fuelT"] = [None, None, None] + list(first["fuelT"][3:])
+    first["type"] = [None, None, None] + list(first["type"][3:])
+    steps[0] = first
+    case.update(blocks=bl, buGroups=bg, tempGroups=[], steps=steps, allTypes=False, onBoundary=False, xsPool=[],
+                control=[c for c in case["control"] if c["type"] != bl[0]["xs"]])
+
+
+def check_cylinder(out, ex, cand, rep):
+    """1-D cylinder representative: per matching component, block-weight x component-area mean of the members."""
+    import numpy as np
+
+    nuclides = ex.nuclides
+    check_template(out, cand, rep, "cyl")
+    rc = {c.getName(): c for c in rep}
+    for cname in [c["name"] for c in cand[0]["comps"]]:
+        if not out.check(cname in rc, "cyl/component-set", lambda: "representative components %s" % sorted(rc)):
+            continue
+        mine = [[x for x in m["comps"] if x["name"] == cname][0] for m in cand]
+        areas = np.array([x["area"] for x in mine])
+        wt = ex.w * areas
+        tab = ex.comp_table(cname)
+        present = [i for i in range(len(nuclides)) if any(nuclides[i] in x["nd"] for x in mine)]
+        if wt.sum() <= 0.0:
+            continue
+        want = (wt / wt.sum()).dot(tab)
+        got = np.array([rc[cname].p.numberDensities.get(n, 0.0) for n in nuclides])
+        bad = [i for i in present if not _close(got[i], want[i])]
+        out.check(not bad, "cyl/component-density-not-weighted-mean",
+                  lambda: "component %s nuclide %s: got %r, block-weight x area mean over the eligible members %r" % (cname, nuclides[bad[0]], got[bad[0]], want[bad[0]]))
+        lo, hi = tab.min(axis=0), tab.max(axis=0)
+        rng = [i for i in present if not (lo[i] * (1 - 1e-9) <= got[i] <= hi[i] * (1 + 1e-9))]
+        out.check(not rng, "cyl/component-density-outside-member-range",
+                  lambda: "component %s nuclide %s: %r not in [%r, %r]" % (cname, nuclides[rng[0]], got[rng[0]], lo[rng[0]], hi[rng[0]]))
+
+
+GEOMETRIES = ["0D", "1D cylinder", "2D hex", "1D cylinder", "0D", "1D slab", "1D cylinder", "0D", "1D cylinder", "2D hex"]
+STEP_BU = [0.0, 2.0, 5.0, 9.0, 10.0, 11.0, 12.0, 19.0, 21.0, 25.0, 29.0, 31.0, 45.0, 80.0]
 
 
 def grouping_strategy(tier):
@@ -1005,23 +1081,44 @@ def grouping_strategy(tier):
     tbounds = st.lists(st.sampled_from([200, 300, 350, 400, 450, 500, 600, 700]), min_size=1, max_size=5, unique=True).map(sorted)
     ctrl = st.fixed_dictionaries({
         "type": st.sampled_from(["A", "A", "B", "a"]),
-        "env": st.sampled_from(["A", "A", "B", "C", "D"]),
+        "env": st.sampled_from(["A", "A", "A", "B", "C", "D"]),
+        "geometry": st.sampled_from(GEOMETRIES),
         "rep": st.sampled_from(["Median", "Average", "FluxWeightedAverage"]),
-        "filter": st.integers(0, len(FILTERS) - 1),
+        "filter": st.sampled_from([0, 1, 0, 2, 0, 3, 0, 4, 0, 5, 0, 6, 0, 7, 0, 8]),  # 0 = no validBlockTypes: the geometry's default applies
         "byComponent": st.booleans(),
         "tempIsotope": st.sampled_from(["U238", "U238", "U235", "ZR90", "FE56"]),
     })
+    step = st.fixed_dictionaries({
+        # per block: [0, _] keep the burnup, [1, d] burn d % more, [2, v] set it, [3, j] take the burnup another block
+        # had before this step (lands in that block's burnup group; fuel follows a non-fuel block)
+        "bu": st.lists(st.one_of(st.just([0, 0.0]), st.tuples(st.just(1), st.sampled_from([1.0, 3.0, 6.0, 11.0, 21.0])).map(list),
+                                 st.tuples(st.just(2), st.sampled_from(STEP_BU)).map(list),
+                                 st.tuples(st.just(3), st.integers(0, 11)).map(list),
+                                 st.tuples(st.just(3), st.integers(0, 3)).map(list)), min_size=12, max_size=12),
+        "fuelT": st.lists(st.one_of(st.none(), st.sampled_from([250.0, 350.0, 450.0, 550.0, 790.0])), min_size=12, max_size=12),
+        "type": st.lists(st.one_of(st.none(), st.none(), st.sampled_from(DESIGNS[:2])), min_size=12, max_size=12),
+    })
     base = st.fixed_dictionaries({
         "blocks": _block_lists(_block_strategy(with_xs=True)),
-        "buGroups": st.one_of(st.just([]), st.just([10, 20, 30]), bounds, bounds),
+        "buGroups": st.one_of(st.just([]), st.just([10, 20, 30]), st.just([10, 20, 30]), bounds, bounds),
         "tempGroups": st.one_of(st.just([]), st.just([]), tbounds, st.just([200, 300, 400, 500, 600])),
         "rep": st.sampled_from(["Median", "Average", "Average", "FluxWeightedAverage"]),
-        "allTypes": st.booleans(),
+        "allTypes": st.sampled_from([False, False, True]),
         "control": st.lists(ctrl, max_size=4, unique_by=lambda c: (c["type"], c["env"])),
         "fluxMode": st.sampled_from(["positive", "positive", "zero"]),
         "lfp": st.sampled_from([0, 0, 1]),
         "onBoundary": st.booleans(),
         "profile": st.sampled_from(["free", "free", "free", "many"]),
+        # history: further createRepresentativeBlocks calls on the same manager after burnup / temperature / block-type
+        # changes, then (optionally) perturbed-state representatives for a list of blocks
+        "steps": st.one_of(st.just([]), st.lists(step, min_size=1, max_size=2), st.lists(step, min_size=1, max_size=1)),
+        "perturb": st.one_of(st.none(), st.lists(st.integers(0, 11), min_size=1, max_size=6)),
+        # the one-letter xs types of the core (block and entry letters are folded into this pool, so that groups hold
+        # several blocks of different kinds); [] = every letter as drawn
+        "scenario": st.sampled_from([None, None, "late-eligible", "default-filter"]),
+        "scenarioGeometry": st.sampled_from(["1D cylinder", "0D", "2D hex", "1D cylinder"]),
+        "xsPool": st.one_of(st.just([]), st.lists(st.sampled_from(["A", "B", "Z", "a", "c", "z"]), min_size=1, max_size=3, unique=True),
+                            st.sampled_from(["A", "B", "a", "z"]).map(lambda x: [x])),
     })
     return base.map(_avoid_known_grouping)
 
@@ -1040,6 +1137,24 @@ def _settings_for(key, control, default):
     return default
 
 
+def _entry_model(c, default):
+    """Options of one crossSectionControl entry after XSModelingOptions.setDefaults (defaults depend on the geometry):
+    0D / 2D hex keep the entry's (or the global) block representation, 1D cylinder / 1D slab impose their component
+    collections; the global valid-block-type default is applied for 0D, 1D slab and 1D cylinder, not for 2D hex."""
+    c = dict(c)
+    g = c.get("geometry", "0D")
+    f = FILTERS[c["filter"] % len(FILTERS)]
+    if f is not None:
+        c["filterList"] = list(f)
+    else:
+        c["filterList"] = None if g == "2D hex" else default["filterList"]
+    if g == "1D cylinder":
+        c["rep"] = "Cylinder"
+    elif g == "1D slab":
+        c["rep"] = "Slab"
+    return c
+
+
 def grouping_execute(case):
     from armi.physics.neutronics import crossSectionGroupManager as xsgm
     from armi.physics.neutronics.fissionProductModel.tests import test_lumpedFissionProduct
@@ -1051,6 +1166,14 @@ def grouping_execute(case):
     bu_b = list(case["buGroups"])
     t_b = list(case["tempGroups"])
     single = not bu_b and not t_b
+    steps = list(case.get("steps", []))
+    perturb = case.get("perturb")
+    history = bool(steps) or perturb is not None
+    pool = list(case.get("xsPool", []))
+
+    def fold(letter):
+        return pool[ALPHABET.index(letter) % len(pool)] if pool else letter
+
     if case["onBoundary"] and bu_b:
         for i, s in enumerate(specs):
             if i % 2 == 0:
@@ -1058,27 +1181,35 @@ def grouping_execute(case):
     for s in specs:
         if case["fluxMode"] == "zero":
             s["flux"] = 0.0
-        s["bpXs"] = s["xs2"] if single and s["design"] == 2 else s["xs"]
+        # two-letter types only for one-call cases without groups (the perturbed-state API and the re-homing of
+        # unrepresented groups split an XS ID into one type and one env letter)
+        s["bpXs"] = s["xs2"] if single and not history and s["design"] == 2 else fold(s["xs"])
     default = {"rep": case["rep"], "filterList": None if case["allTypes"] else ["fuel"], "byComponent": False, "tempIsotope": "U238"}
     control = {}
     # the isotope that places a block in a temperature group is looked up with the block's CURRENT suffix, so it is kept
     # one per xs type (that of the type's 'A' entry, else the default): otherwise regrouping a refreshed core could move
     # blocks again and "the" group of a block would not be defined
-    iso = {c["type"]: c["tempIsotope"] for c in case["control"] if c.get("env", "A") == "A"}
+    iso = {}
     for c in case["control"]:
-        c = dict(c)
-        f = FILTERS[c["filter"] % len(FILTERS)]
-        # an entry without validBlockTypes inherits the global default (XSModelingOptions.setDefaults)
-        c["filterList"] = default["filterList"] if f is None else f
-        c["tempIsotope"] = iso.get(c["type"], "U238")
-        control[c["type"] + c.get("env", "A")] = c
+        if c.get("env", "A") == "A":
+            iso.setdefault(fold(c["type"]), c["tempIsotope"])
     xsctl = {}
-    for k, c in control.items():
-        d = {"geometry": "0D", "blockRepresentation": c["rep"], "averageByComponent": c["byComponent"], "xsTempIsotope": c["tempIsotope"]}
+    for c in case["control"]:
+        c = _entry_model(c, default)
+        c["type"] = fold(c["type"])
+        if c["type"] + c.get("env", "A") in control:
+            continue  # folded onto an entry that exists already
+        c["tempIsotope"] = iso.get(c["type"], "U238")
+        key = c["type"] + c.get("env", "A")
+        control[key] = c
+        g = c.get("geometry", "0D")
+        d = {"geometry": g, "averageByComponent": c["byComponent"], "xsTempIsotope": c["tempIsotope"]}
+        if g in ("0D", "2D hex"):
+            d["blockRepresentation"] = c["rep"]
         f = FILTERS[c["filter"] % len(FILTERS)]
         if f is not None:
             d["validBlockTypes"] = list(f)
-        xsctl[k] = d
+        xsctl[key] = d
     settings = {"buGroups": bu_b, "tempGroups": t_b, "xsBlockRepresentation": case["rep"],
                 "disableBlockTypeExclusionInXsGeneration": bool(case["allTypes"])}
     if xsctl:
@@ -1110,153 +1241,291 @@ def grouping_execute(case):
     csm.interactBOL()
     core = list(r.core.getBlocks())
     out.check(sorted(id(b) for b in core) == sorted(id(b) for b in blocks), "harness/core-blocks", "core blocks differ from the built ones")
-    meas0 = {id(b): measure(b) for b in core}
-    old_env = {id(b): b.p.envGroup for b in core}
-    skip = ("envGroup", "envGroupNum")
-    before = {id(b): observe(b, skip) for b in core}
-
-    groups = csm.makeCrossSectionGroups()
-
-    # ---- partition
-    nbu, nt = len(bu_b) + 1, len(t_b) + 1
-    count = {}
-    for key, coll in groups.items():
-        for b in coll:
-            count[id(b)] = count.get(id(b), 0) + 1
-            out.check(b.getMicroSuffix() == key, "group/member-suffix-differs-from-key",
-                      lambda: "block %s with suffix %r sits in group %r" % (b.getName(), b.getMicroSuffix(), key))
-    for b in core:
-        out.check(count.get(id(b), 0) == 1, "group/block-not-in-exactly-one-group",
-                  lambda: "block %s is in %d groups" % (b.getName(), count.get(id(b), 0)))
     coreids = {id(b) for b in core}
-    for key, coll in groups.items():
-        # (copies of blueprint-only blocks may join any group their refreshed suffix names - _getMissingBlueprintBlocks)
-        out.check(len(coll) > 0, "group/empty-group", "group %r is empty" % key)
+    skip = ("envGroup", "envGroupNum")
+    nbu, nt = len(bu_b) + 1, len(t_b) + 1
+    out.label("bounds:%s" % ("none" if single else "bu" if not t_b else "bu+temp" if bu_b else "temp"),
+              "rep:" + case["rep"], "control:%d" % len(control), "calls:%d" % (1 + len(steps)))
+    if case.get("scenario") and len(specs) >= 3:
+        out.label("scenario:" + case["scenario"])
+    for c in control.values():
+        out.label("geometry:" + c.get("geometry", "0D") + ("" if FILTERS[c["filter"] % len(FILTERS)] else "/default-filter"))
 
-    # ---- environment group from the boundaries
-    lower = 0
-    for b in core:
-        m = meas0[id(b)]
-        xs = b.p.xsType
-        if single:
-            want = xs if len(xs) == 2 else xs + old_env[id(b)]
-            out.check(b.getMicroSuffix() == want, "group/env-group-touched-without-boundaries",
-                      lambda: "block %s: suffix %r, expected %r (no burnup/temperature groups)" % (b.getName(), b.getMicroSuffix(), want))
-            continue
-        bi = [i for i, u in enumerate(bu_b + [math.inf]) if m["bu"] <= u][0]
-        num = int(b.p.envGroupNum)
-        out.check(num % nbu == bi, "group/burnup-group-index",
-                  lambda: "block %s burnup %r bounds %s: envGroupNum %d (mod %d = %d), expected burnup group %d" % (b.getName(), m["bu"], bu_b, num, nbu, num % nbu, bi))
-        st_ = _settings_for(xs + old_env[id(b)], control, default)
-        iso = st_["tempIsotope"]
-        ti = 0
-        known_t = True
-        if nt > 1:
-            nvt = sum((c["nd"][iso] or TRACE) * c["vol"] * c["T"] for c in m["comps"] if iso in c["nd"])
-            nv = sum((c["nd"][iso] or TRACE) * c["vol"] for c in m["comps"] if iso in c["nd"])
-            if nv > 0:
-                T = nvt / nv
-                if any(abs(T - u) < 1e-6 for u in t_b):
-                    known_t = False  # on a boundary within rounding: either side
-                ti = [i for i, u in enumerate(t_b + [math.inf]) if T <= u][0]
+    def one_call(tag):
+        """Group + create representatives for the CURRENT state of the core; the whole oracle, no memory of earlier calls.
+        Returns False when armi refused the state in a documented way."""
+        meas0 = {id(b): measure(b) for b in core}
+        old_env = {id(b): b.p.envGroup for b in core}
+        before = {id(b): observe(b, skip) for b in core}
+        groups = csm.makeCrossSectionGroups()
+
+        # ---- partition
+        count = {}
+        key_of = {}
+        for key, coll in groups.items():
+            for b in coll:
+                count[id(b)] = count.get(id(b), 0) + 1
+                key_of[id(b)] = key
+                out.check(b.getMicroSuffix() == key, "group/member-suffix-differs-from-key",
+                          lambda: "%s: block %s with suffix %r sits in group %r" % (tag, b.getName(), b.getMicroSuffix(), key))
+            # (copies of blueprint-only blocks may join any group their refreshed suffix names - _getMissingBlueprintBlocks)
+            out.check(len(coll) > 0, "group/empty-group", "group %r is empty" % key)
+        for b in core:
+            out.check(count.get(id(b), 0) == 1, "group/block-not-in-exactly-one-group",
+                      lambda: "%s: block %s is in %d groups" % (tag, b.getName(), count.get(id(b), 0)))
+
+        # ---- environment group from the boundaries
+        lower = 0
+        for b in core:
+            m = meas0[id(b)]
+            xs = b.p.xsType
+            if single:
+                want = xs if len(xs) == 2 else xs + old_env[id(b)]
+                out.check(b.getMicroSuffix() == want, "group/env-group-touched-without-boundaries",
+                          lambda: "%s: block %s: suffix %r, expected %r (no burnup/temperature groups)" % (tag, b.getName(), b.getMicroSuffix(), want))
+                continue
+            bi = [i for i, u in enumerate(bu_b + [math.inf]) if m["bu"] <= u][0]
+            num = int(b.p.envGroupNum)
+            out.check(num % nbu == bi, "group/burnup-group-index",
+                      lambda: "%s: block %s burnup %r bounds %s: envGroupNum %d (mod %d = %d), expected burnup group %d" % (tag, b.getName(), m["bu"], bu_b, num, nbu, num % nbu, bi))
+            st_ = _settings_for(xs + old_env[id(b)], control, default)
+            isot = st_["tempIsotope"]
+            ti = 0
+            known_t = True
+            if nt > 1:
+                nvt = sum((c["nd"][isot] or TRACE) * c["vol"] * c["T"] for c in m["comps"] if isot in c["nd"])
+                nv = sum((c["nd"][isot] or TRACE) * c["vol"] for c in m["comps"] if isot in c["nd"])
+                if nv > 0:
+                    T = nvt / nv
+                    if any(abs(T - u) < 1e-6 for u in t_b):
+                        known_t = False  # on a boundary within rounding: either side
+                    ti = [i for i, u in enumerate(t_b + [math.inf]) if T <= u][0]
+                else:
+                    known_t = False  # isotope absent: no temperature to classify by
+            if known_t:
+                out.check(num // nbu == ti, "group/temperature-group-index",
+                          lambda: "%s: block %s %s temperature group %d expected %d (bounds %s)" % (tag, b.getName(), isot, num // nbu, ti, t_b))
+            out.check(b.p.envGroup == _env_letter(num) and b.getMicroSuffix() == xs + _env_letter(num), "group/env-letter",
+                      lambda: "%s: block %s envGroupNum %d envGroup %r suffix %r" % (tag, b.getName(), num, b.p.envGroup, b.getMicroSuffix()))
+            if num >= 26:
+                lower += 1
+        for b in core:
+            d = _diff(before[id(b)], observe(b, skip))
+            if d:
+                out.fail("group/source-block-changed", "%s makeCrossSectionGroups: block %s %s" % (tag, b.getName(), d))
+                break
+
+        if len(core) >= 3 and len({b.getMicroSuffix() for b in core}) >= 2:
+            out.nontrivial = True
+        out.label("groups:%s" % ("1" if len(groups) == 1 else "2-3" if len(groups) <= 3 else "4+"))
+        if lower:
+            out.label("env:lower-case")
+        if any(len(b.p.xsType) == 2 for b in core):
+            out.label("xs:two-letter")
+        if any(b.p.xsType in LOWER for b in core):
+            out.label("xs:lower-case")
+        if any(id(b) not in coreids for coll in groups.values() for b in coll):
+            out.label("blueprint-only-groups")
+
+        # ---- representatives from the manager
+        members = {key: list(coll) for key, coll in groups.items()}
+        plan = {}
+        refusals = []
+        for key, mem in members.items():
+            st_ = _settings_for(key, control, default)
+            ms = [measure(b) if id(b) not in meas0 else meas0[id(b)] for b in mem]
+            # (state of core blocks is unchanged since meas0 except the env group, which measure() does not read)
+            mask = [eligible(m, st_["filterList"]) for m in ms]
+            cand = [m for m, e in zip(ms, mask) if e]
+            plan[key] = (st_, ms, mask, cand)
+            if cand and st_["rep"] == "FluxWeightedAverage" and Expect(cand, nuclides, True).mixed:
+                refusals.append(("mixed-weights", ValueError, key))
+            if cand and st_["rep"] == "Cylinder" and not _cyl_consistent(cand):
+                refusals.append(("inconsistent-components", ValueError, key))
+            if cand and st_["rep"] == "Slab":
+                refusals.append(("slab-needs-rectangles", (TypeError, ValueError), key))
+        env_grouped = {id(b): b.p.envGroup for b in core}
+        try:
+            csm.createRepresentativeBlocks()
+            out.check(not refusals, "group/documented-refusal-missing",
+                      lambda: "%s: no error although %s" % (tag, [(n, k) for n, _e, k in refusals]))
+        except (ValueError, TypeError) as exc:
+            if not any(isinstance(exc, e) for _n, e, _k in refusals):
+                raise
+            # documented refusals: zero and non-zero flux among eligible members (blueprint-only blocks carry no flux),
+            # 1-D cylinder members whose components do not align, 1-D slab with non-rectangular components
+            out.rejected = True
+            for n in sorted({n for n, _e, _k in refusals}):
+                out.label("refused:" + n)
+        for b in core:
+            d = _diff(before[id(b)], observe(b, skip))
+            if d:
+                out.fail("group/source-block-changed", "%s createRepresentativeBlocks: block %s %s" % (tag, b.getName(), d))
+                break
+        if out.rejected:
+            return False
+        reps = csm.representativeBlocks
+        out.check(list(reps) == sorted(reps), "group/representatives-not-sorted", lambda: "%s" % list(reps))
+        # env group after the call: members of represented groups keep the group the boundaries gave them; members of
+        # groups without an eligible member may be re-homed to a represented group of the same type (documented)
+        for b in core:
+            key = key_of.get(id(b))
+            if key is None:
+                continue
+            now = b.p.envGroup
+            if plan[key][3]:
+                out.check(now == env_grouped[id(b)], "group/member-of-represented-group-relabelled",
+                          lambda: "%s: block %s of represented group %r now has env group %r" % (tag, b.getName(), key, now))
             else:
-                known_t = False  # isotope absent: no temperature to classify by
-        if known_t:
-            out.check(num // nbu == ti, "group/temperature-group-index",
-                      lambda: "block %s %s temperature group %d expected %d (bounds %s)" % (b.getName(), iso, num // nbu, ti, t_b))
-        out.check(b.p.envGroup == _env_letter(num) and b.getMicroSuffix() == xs + _env_letter(num), "group/env-letter",
-                  lambda: "block %s envGroupNum %d envGroup %r suffix %r" % (b.getName(), num, b.p.envGroup, b.getMicroSuffix()))
-        if num >= 26:
-            lower += 1
-    for b in core:
-        d = _diff(before[id(b)], observe(b, skip))
-        if d:
-            out.fail("group/source-block-changed", "makeCrossSectionGroups: block %s %s" % (b.getName(), d))
+                ok = {env_grouped[id(b)]} | {k[1] for k in reps if k[0] == key[0] and len(k) == 2}
+                out.check(now in ok, "group/unrepresented-member-env-group",
+                          lambda: "%s: block %s of unrepresented group %r now has env group %r, represented: %s" % (tag, b.getName(), key, now, list(reps)))
+                if now != env_grouped[id(b)]:
+                    out.label("unrepresented-group-rehomed")
+        for key, mem in members.items():
+            st_, ms, mask, cand = plan[key]
+            if key not in control and st_ is not default:
+                out.label("settings:inherited-from-lowest-of-%d-entries" % min(2, len([k for k in control if k[0] == key[0] and k[1] < key[1]])))
+            if not cand:
+                out.check(key not in reps, "group/representative-without-eligible-members", "%s: group %r" % (tag, key))
+                out.label("group:no-eligible-members")
+                continue
+            if not out.check(key in reps, "group/no-representative", lambda: "%s: group %r with %d eligible members has no representative" % (tag, key, len(cand))):
+                continue
+            if len(cand) < len(ms):
+                out.label("group:ineligible-members")
+            rep = reps[key]
+            kind = st_["rep"]
+            fluxW = kind == "FluxWeightedAverage"
+            ex = Expect(cand, nuclides, fluxW)
+            check_deep_copy(out, rep, mem, "group")
+            if kind == "Median":
+                keys = ex.median_keys()
+                order = sorted(range(len(keys)), key=lambda i: keys[i])
+                n = len(order)
+                mids = {order[n // 2]} if n % 2 else {order[n // 2 - 1], order[n // 2]}
+                byname = {m["name"]: i for i, m in enumerate(cand)}
+                who = byname.get(rep.getName())
+                if out.check(who is not None, "median/not-a-member", lambda: "%s: group %r: %r" % (tag, key, rep.getName())):
+                    out.check(any(keys[who][0] == keys[i][0] for i in mids), "median/not-the-median-member",
+                              lambda: "%s: group %r: copy of %s; sorted weighted burnups %s" % (tag, key, rep.getName(), [keys[i][0] for i in order]))
+                continue
+            got_t = csm.avgNucTemperatures.get(key)
+            out.check(got_t is not None, "group/no-nuclide-temperatures", "group %r" % key)
+
+            class _C:  # the manager keeps the collection's temperatures under the group key
+                avgNucTemperatures = got_t or {}
+
+            if kind == "Cylinder":
+                out.label("group:cylinder")
+                check_cylinder(out, ex, cand, rep)
+                check_nuc_temps(out, ex, _C.avgNucTemperatures, "cyl")
+                check_burnup(out, Expect(ms, nuclides, fluxW), mask, rep, "cyl")
+                continue
+            families = {m["family"] for m in cand}
+            performBy = bool(st_["byComponent"]) and len(families) == 1
+            check_template(out, cand, rep, "avg")
+            check_average(out, ex, rep, _C, kind, performBy)
+            check_burnup(out, Expect(ms, nuclides, fluxW), mask, rep)
+        return True
+
+    alive = one_call("call 1")
+    for k, stp in enumerate(steps):
+        if not alive:
             break
-
-    out.nontrivial = len(core) >= 3 and len({b.getMicroSuffix() for b in core}) >= 2
-    out.label("groups:%s" % ("1" if len(groups) == 1 else "2-3" if len(groups) <= 3 else "4+"),
-              "bounds:%s" % ("none" if single else "bu" if not t_b else "bu+temp" if bu_b else "temp"),
-              "rep:" + case["rep"], "control:%d" % len(control))
-    if lower:
-        out.label("env:lower-case")
-    if any(len(b.p.xsType) == 2 for b in core):
-        out.label("xs:two-letter")
-    if any(b.p.xsType in LOWER for b in core):
-        out.label("xs:lower-case")
-    if any(id(b) not in coreids for coll in groups.values() for b in coll):
-        out.label("blueprint-only-groups")
-
-    # ---- representatives from the manager
-    members = {key: list(coll) for key, coll in groups.items()}
-    plan = {}
-    mixed = []
-    for key, mem in members.items():
-        st_ = _settings_for(key, control, default)
-        ms = [measure(b) if id(b) not in meas0 else meas0[id(b)] for b in mem]
-        # (state of core blocks is unchanged since meas0 except the env group, which measure() does not read)
-        mask = [eligible(m, st_["filterList"]) for m in ms]
-        cand = [m for m, e in zip(ms, mask) if e]
-        plan[key] = (st_, ms, mask, cand)
-        if cand and st_["rep"] == "FluxWeightedAverage" and Expect(cand, nuclides, True).mixed:
-            mixed.append(key)
-    try:
-        csm.createRepresentativeBlocks()
-        out.check(not mixed, "coll/mixed-zero-nonzero-weights-accepted", lambda: "groups %s have zero and non-zero flux among the eligible members" % mixed)
-    except ValueError:
-        if not mixed:
-            raise
-        # documented refusal (blueprint-only blocks carry no flux)
-        out.rejected = True
-        out.label("refused:mixed-weights")
-    for b in core:
-        d = _diff(before[id(b)], observe(b, skip))
-        if d:
-            out.fail("group/source-block-changed", "createRepresentativeBlocks: block %s %s" % (b.getName(), d))
-            break
-    if out.rejected:
-        return out
-    reps = csm.representativeBlocks
-    out.check(list(reps) == sorted(reps), "group/representatives-not-sorted", lambda: "%s" % list(reps))
-    for key, mem in members.items():
-        st_, ms, mask, cand = plan[key]
-        if key not in control and st_ is not default:
-            out.label("settings:inherited-from-lowest-of-%d-entries" % min(2, len([k for k in control if k[0] == key[0] and k[1] < key[1]])))
-        if not cand:
-            out.check(key not in reps, "group/representative-without-eligible-members", "group %r" % key)
-            out.label("group:no-eligible-members")
-            continue
-        if not out.check(key in reps, "group/no-representative", lambda: "group %r with %d eligible members has no representative" % (key, len(cand))):
-            continue
-        rep = reps[key]
-        kind = st_["rep"]
-        fluxW = kind == "FluxWeightedAverage"
-        ex = Expect(cand, nuclides, fluxW)
-        check_deep_copy(out, rep, mem, "group")
-        if kind == "Median":
-            keys = ex.median_keys()
-            order = sorted(range(len(keys)), key=lambda i: keys[i])
-            n = len(order)
-            mids = {order[n // 2]} if n % 2 else {order[n // 2 - 1], order[n // 2]}
-            byname = {m["name"]: i for i, m in enumerate(cand)}
-            who = byname.get(rep.getName())
-            if out.check(who is not None, "median/not-a-member", lambda: "group %r: %r" % (key, rep.getName())):
-                out.check(any(keys[who][0] == keys[i][0] for i in mids), "median/not-the-median-member",
-                          lambda: "group %r: copy of %s; sorted weighted burnups %s" % (key, rep.getName(), [keys[i][0] for i in order]))
-            continue
-        families = {m["family"] for m in cand}
-        performBy = bool(st_["byComponent"]) and len(families) == 1
-        coll = groups[key]
-        got_t = csm.avgNucTemperatures.get(key)
-        out.check(got_t is not None, "group/no-nuclide-temperatures", "group %r" % key)
-
-        class _C:  # the manager keeps the collection's temperatures under the group key
-            avgNucTemperatures = got_t or {}
-
-        check_template(out, cand, rep, "avg")
-        check_average(out, ex, rep, _C, kind, performBy)
-        check_burnup(out, Expect(ms, nuclides, fluxW), mask, rep)
+        # state changes between calls: burnup, fuel temperature, block type (e.g. a blanket becoming driver fuel)
+        was = [b.p.percentBu for b in core]
+        for i, b in enumerate(core):
+            mode, x = stp["bu"][i % len(stp["bu"])]
+            if mode == 3:
+                # a fuel block follows a non-fuel block (blanket / reflector / control) if there is one
+                pick = [k_ for k_, o in enumerate(core) if FAMILY[o.getType()] != "fuel"] if FAMILY[b.getType()] == "fuel" else []
+                pick = pick or list(range(len(core)))
+                b.p.percentBu = was[pick[int(x) % len(pick)]]
+            if mode == 1:
+                b.p.percentBu = min(100.0, b.p.percentBu + x)
+            elif mode == 2:
+                b.p.percentBu = x
+            t = stp["fuelT"][i % len(stp["fuelT"])]
+            if t is not None and FAMILY[b.getType()] == "fuel":
+                b.getComponentByName("fuel").setTemperature(t)
+            ty = stp["type"][i % len(stp["type"])]
+            if ty is not None and FAMILY[b.getType()] == "fuel":
+                b.setType(ty)
+        alive = one_call("call %d" % (k + 2))
+    if alive and perturb is not None and csm.representativeBlocks:
+        _check_perturbed(out, csm, core, perturb, nuclides)
     return out
+
+
+def _check_perturbed(out, csm, core, picks, nuclides):
+    """createRepresentativeBlocksUsingExistingBlocks: every listed block of a represented group moves to a fresh XS type
+    (one per original type) whose representative is a copy of the original group's representative."""
+    groups = csm.makeCrossSectionGroups()  # what the call does first; leaves the refreshed suffixes to read
+    reps = dict(csm.representativeBlocks)
+    chosen = []
+    for p_ in picks:
+        b = core[p_ % len(core)]
+        if all(b is not c for c in chosen):
+            chosen.append(b)
+    orig = {id(b): b.getMicroSuffix() for b in core}
+    used = {b.p.xsType for b in core}
+    skipx = ("envGroup", "envGroupNum", "xsType", "xsTypeNum")
+    before = {id(b): observe(b, skipx if any(b is c for c in chosen) else ("envGroup", "envGroupNum")) for b in core}
+    repstate = {k: [(c.getName(), float(c.temperatureInC), sorted(c.p.numberDensities.items())) for c in v] for k, v in reps.items()}
+    want_ids = sorted({orig[id(b)] for b in chosen if orig[id(b)] in reps})
+    out.label("perturbed:types-%d" % min(3, len({k[0] for k in want_ids})))
+    res = csm.createRepresentativeBlocksUsingExistingBlocks(chosen, reps)
+    if not want_ids:
+        out.check(res is None, "perturbed/result-without-represented-blocks", "no listed block belongs to a represented group, result %r" % (res,))
+        return
+    if not out.check(res is not None, "perturbed/no-result", "listed blocks of groups %s gave None" % want_ids):
+        return
+    newColls, newReps, origFromNew = res
+    out.check(sorted(newReps) == sorted(origFromNew) == sorted(newColls), "perturbed/key-sets-differ",
+              lambda: "collections %s representatives %s map %s" % (sorted(newColls), sorted(newReps), sorted(origFromNew)))
+    out.check(sorted(origFromNew.values()) == want_ids, "perturbed/new-ids-not-one-per-original-id",
+              lambda: "original ids of the listed blocks %s, new -> original map %s" % (want_ids, dict(origFromNew)))
+    typemap = {}
+    for new, old in origFromNew.items():
+        out.check(new[1:] == old[1:], "perturbed/env-group-not-kept", lambda: "%r -> %r" % (old, new))
+        out.check(new[0] not in used, "perturbed/new-type-already-in-use", lambda: "%r -> %r, types in the core %s" % (old, new, sorted(used)))
+        if old[0] in typemap and typemap[old[0]] != new[0]:
+            out.fail("perturbed/original-type-split", "type %r mapped to %r and %r" % (old[0], typemap[old[0]], new[0]))
+        typemap[old[0]] = new[0]
+    out.check(len(set(typemap.values())) == len(typemap), "perturbed/new-types-collide",
+              lambda: "original type -> new type %s" % typemap)
+    for b in chosen:
+        o = orig[id(b)]
+        if o not in reps:
+            out.check(b.getMicroSuffix() == o, "perturbed/unrepresented-block-retyped", lambda: "block %s %r -> %r" % (b.getName(), o, b.getMicroSuffix()))
+            continue
+        n = b.getMicroSuffix()
+        ok = n in newReps and origFromNew.get(n) == o
+        out.check(ok, "perturbed/block-not-in-the-new-group-of-its-original-group",
+                  lambda: "block %s of group %r now carries %r; new -> original map %s" % (b.getName(), o, n, dict(origFromNew)))
+    for new, rep in newReps.items():
+        old = origFromNew.get(new)
+        if old not in repstate:
+            continue
+        out.check(rep.getMicroSuffix() == new, "perturbed/representative-suffix", lambda: "representative of %r carries %r" % (new, rep.getMicroSuffix()))
+        now = [(c.getName(), float(c.temperatureInC), sorted(c.p.numberDensities.items())) for c in rep]
+        out.check(now == repstate[old], "perturbed/representative-not-a-copy-of-the-original",
+                  lambda: "representative %r differs from the representative of %r" % (new, old))
+        out.check(rep is not reps[old] and not ({id(c) for c in rep} & {id(c) for c in reps[old]}), "perturbed/representative-shares-state",
+                  "new representative %r shares objects with %r" % (new, old))
+        if old in groups and new in newColls:
+            out.check(type(newColls[new]) is type(groups[old]) and len(newColls[new]) == 0, "perturbed/collection-kind",
+                      lambda: "%r: %s (len %d), original %s" % (new, type(newColls[new]).__name__, len(newColls[new]), type(groups[old]).__name__))
+    for k, v in reps.items():
+        now = [(c.getName(), float(c.temperatureInC), sorted(c.p.numberDensities.items())) for c in v]
+        out.check(now == repstate[k] and v.getMicroSuffix() == k, "perturbed/original-representative-changed", "representative %r" % k)
+    for b in core:
+        isch = any(b is c for c in chosen)
+        d = _diff(before[id(b)], observe(b, skipx if isch else ("envGroup", "envGroupNum")))
+        if d:
+            out.fail("perturbed/block-changed", "block %s (%s): %s" % (b.getName(), "listed" if isch else "not listed", d))
+            break
 
 
 PARTS = [
@@ -1274,7 +1543,7 @@ PARTS = [
               "volume) for densities, component and nuclide temperatures, HM-weighted burnup, median member, plus range / common "
               "value / duplication / eligible-only / rescaling invariance and unchanged source blocks; non-trivial = >= 3 eligible "
               "members with distinct compositions and non-uniform weights"),
-    Part("grouping", grouping_execute, strategy=grouping_strategy, budget={"quick": 300, "thorough": 12000},
+    Part("grouping", grouping_execute, strategy=grouping_strategy, budget={"quick": 280, "thorough": 10000},
          procs={"quick": 8, "thorough": 16},
          rule="Hypothesis: generated full hex core (1-12 blocks, xs types incl. lower-case and two-letter, stale env groups), buGroups / "
               "tempGroups boundaries (burnups placed on boundaries), crossSectionControl entries, representation setting; oracle: every "
